@@ -82,8 +82,9 @@ TABLE.update({
  "C02-G": ("data", "go test -vet=off -count=1 -run TestIDivModDemo ./data/"),
  "C02-H": ("data", "go test -vet=off -count=1 -run TestCopyFromBlockDemo ./data/"),
  "C03-G": ("data/cdata", "go test -vet=off -count=1 -run TestC03G ./data/cdata/"),
- "C04-G": ("models", "go test -vet=off -count=1 -run TestC04G ./models/..."),
- "C04-H": ("models", "go test -vet=off -count=1 -run TestC04H ./models/..."),
+ "C04-G": ("c04demo", "go test -vet=off -count=1 ./c04demo/"),
+ "C04-H": ("c04demo", "go test -vet=off -count=1 ./c04demo/"),
+ "C03-H": (None, "D=$(mktemp -d) && go build -buildmode=c-shared -o $D/libopenwater.so ./libopenwater/ && gcc -O1 -o $D/demo %(out)s/demo/c03h_demo.c -ldl && $D/demo $D/libopenwater.so; rc=$?; rm -rf $D; exit $rc"),
  "C05-G": ("cmd/ow-sim", "go1.26.8 test -race -modfile=%(stub)s -vet=off -count=1 -run TestSpareOutputsDemo ./cmd/ow-sim/"),
  "C05-H": ("models/rr", "go test -vet=off -count=1 -run TestGR4J ./models/rr/"),
  "C06-G": ("models/rr", "go test -vet=off -count=1 -run TestC06G ./models/rr/"),
@@ -119,6 +120,7 @@ def main():
         sh("git checkout -- . && git clean -fdq")
         demos = [f for f in glob.glob(out + "/demo/*") if f.endswith(".go")]
         if dest:
+            os.makedirs(os.path.join(WT, dest), exist_ok=True)
             for f in demos:
                 shutil.copy(f, os.path.join(WT, dest))
         c0, o0 = sh(cmd)
@@ -127,6 +129,7 @@ def main():
         cs, os_ = sh(SUITE)
         cb, ob = sh("go1.26.8 build -modfile=%s ./io/ ./cmd/ow-sim/" % STUBMOD)
         if dest:
+            os.makedirs(os.path.join(WT, dest), exist_ok=True)
             for f in demos:
                 shutil.copy(f, os.path.join(WT, dest))
         c1, o1 = sh(cmd)
